@@ -222,11 +222,13 @@ def gen_dp_case(rng):
 
 
 def run_dp_impl(case):
-    from whatshap.core import Read, ReadSet, Pedigree, PedigreeDPTable, NumericSampleIds, Genotype
+    from whatshap.core import Read, ReadSet, Pedigree, PedigreeDPTable, NumericSampleIds, Genotype, PhredGenotypeLikelihoods
     nsi = NumericSampleIds()
     ped = Pedigree(nsi)
+    lik = "gls" in case
     for s in case["order"]:
-        ped.add_individual(s, [Genotype(list(g)) for g in case["gts"][s]], None)
+        ped.add_individual(s, [Genotype(list(g)) for g in case["gts"][s]],
+                           [PhredGenotypeLikelihoods(list(g)) for g in case["gls"][s]] if lik else None)
     for f, m, c in case["trios"]:
         ped.add_relationship(f, m, c)
     rs = ReadSet()
@@ -238,9 +240,10 @@ def run_dp_impl(case):
         rs.add(rd)
     rs.sort()
     try:
-        dp = PedigreeDPTable(rs, list(case["recomb"]), ped, False, list(case["positions"]))
+        dp = PedigreeDPTable(rs, list(case["recomb"]), ped, lik, list(case["positions"]))
         supers, tv = dp.get_super_reads()
         part = dp.get_optimal_partitioning()
+        cost = dp.get_optimal_cost()
     except RuntimeError as e:
         return {"err": "MendelianConflict" if "Mendelian conflict" in str(e) else "RuntimeError:" + str(e)}
     order_names = [r.name for r in rs]
@@ -248,11 +251,12 @@ def run_dp_impl(case):
     for k in range(len(case["order"])):
         a, b = supers[k][0], supers[k][1]
         sr.append([[va.position, va.allele, vb.allele] for va, vb in zip(a, b)])
-    return {"tv": list(tv), "partitioning": dict(zip(order_names, part)), "superreads": sr}
+    return {"tv": list(tv), "partitioning": dict(zip(order_names, part)), "superreads": sr, "cost": cost}
 
 
-def column_requests(order, trios, positions, gts_by_name, reads, partitioning, tv):
-    """model request `c05.columns` for all columns: entries from the reads under the reported bipartition"""
+def column_requests(order, trios, positions, gts_by_name, reads, partitioning, tv, gls_by_name=None, op=None):
+    """model request `c05.columns` (`c05.lik_columns` with likelihoods) for all columns: entries from the reads under the
+    reported bipartition"""
     idx = {s: i for i, s in enumerate(order)}
     cols = []
     for ci, pos in enumerate(positions):
@@ -261,8 +265,17 @@ def column_requests(order, trios, positions, gts_by_name, reads, partitioning, t
             for p, a, q in r["variants"]:
                 if p == pos:
                     entries.append([idx[r["sample"]], partitioning[r["name"]], a, q])
-        cols.append({"t": tv[ci], "gts": [gts_by_name[s][ci] for s in order], "entries": entries})
-    return {"op": "c05.columns", "size": len(order), "triples": [[idx[f], idx[m], idx[c]] for f, m, c in trios], "cols": cols}
+        col = {"t": tv[ci], "gts": [gts_by_name[s][ci] for s in order], "entries": entries}
+        if gls_by_name is not None:
+            col["gls"] = [gls_by_name[s][ci] for s in order]
+        cols.append(col)
+    return {"op": op or ("c05.columns" if gls_by_name is None else "c05.lik_columns"), "size": len(order),
+            "triples": [[idx[f], idx[m], idx[c]] for f, m, c in trios], "cols": cols}
+
+
+def transition_cost(recomb, tv):
+    """recombination part of the solver's objective (independent of the model's `transitionCost`)"""
+    return sum(bin(a ^ b).count("1") * recomb[c + 1] for c, (a, b) in enumerate(zip(tv, tv[1:])))
 
 
 class Conv:
@@ -357,8 +370,117 @@ def do_dp(ctx, batch, case):
         if ans != want:
             ctx.disagree("c05.columns", case, want, ans)
     batch.add(req, cb)
+    # the solver's optimum = sum of the model's column costs (get_cost of every column under the reported bipartition and
+    # transmission value) + the recombination costs charged for the reported transmission vector
+    creq = dict(req, op="c05.costs")
+
+    def cb_cost(req, ans, case=case, impl=impl):
+        if any(a is None for a in ans) or sum(ans) + transition_cost(case["recomb"], impl["tv"]) != impl["cost"]:
+            ctx.disagree("c05.costs(optimal cost = column costs + recombination costs)", case, impl["cost"],
+                         {"columns": ans, "recombination": transition_cost(case["recomb"], impl["tv"])})
+    batch.add(creq, cb_cost)
     if len(ctx.samples) < 3 and trios and case["reads"]:
         ctx.sample({"dp_case": case, "impl": impl})
+
+
+# ------------------------------------------------------------------------------------------------
+# (c') PedigreeDPTable with genotype likelihoods (--distrust-genotypes)
+# ------------------------------------------------------------------------------------------------
+
+def gen_gl(rng, gt, style):
+    """phred likelihoods [0/0, 0/1, 1/1] of one call"""
+    g = sum(gt)
+    if style == "called":          # as create_pedigree builds them without PL: default_gq everywhere, 0 at the call
+        q = rng.choice([5, 30, 30, 60])
+        return [0 if k == g else q for k in range(3)]
+    if style == "peaked":
+        return [0 if k == g else rng.randrange(1, 80) for k in range(3)]
+    if style == "small":           # small numbers: ties between genotypes and with read costs are frequent
+        x = [rng.randrange(0, 6) for _ in range(3)]
+        m = min(x)
+        return [v - m for v in x]
+    if style == "flat":
+        return [0, 0, 0]
+    x = [rng.randrange(0, 300) for _ in range(3)]
+    return x                        # not normalised (PhredGenotypeLikelihoods accepts any numbers)
+
+
+def gen_dplik_case(rng):
+    case = gen_dp_case(rng)
+    case["kind"] = "dplik"
+    style = rng.choice(["called", "peaked", "peaked", "small", "small", "mixed", "mixed", "any"])
+    gls = {}
+    for s, col in case["gts"].items():
+        gls[s] = [gen_gl(rng, g, style if style != "mixed" else rng.choice(["called", "peaked", "small", "flat", "any"])) for g in col]
+    case["gls"] = gls
+    if rng.random() < 0.4:          # weak reads, so that the likelihoods decide
+        for r in case["reads"]:
+            for v in r["variants"]:
+                v[2] = rng.randrange(1, 8)
+    if rng.random() < 0.3:
+        case["recomb"] = [0] + [rng.choice([0, 1, 2, 3, 120]) for _ in case["positions"][1:]]
+    return case
+
+
+def lik_oracle(ctx, case, order, trios, positions, sr, tv, label):
+    """the clauses proved for the likelihood variant (`lik_child_entry_is_parent_entry`, `lik_output_genotypes_mendelian`),
+    evaluated on the real super-reads: the child's entry on haplotype 0 IS the father's entry on the haplotype selected by
+    bit 2k (allele or tie flag), likewise haplotype 1 / mother / bit 2k+1; hence the genotypes formed by definite
+    super-read alleles have no Mendelian conflict.  Outside the property text (trusted genotypes only) ⇒ reported as a
+    disagreement with the proved model, not as a property violation."""
+    idx = {s: i for i, s in enumerate(order)}
+    n_tie = n_def = 0
+    for k, (f, m, c) in enumerate(trios):
+        for ci, pos in enumerate(positions):
+            ca, fa, ma = sr[idx[c]][ci][1:], sr[idx[f]][ci][1:], sr[idx[m]][ci][1:]
+            want = [fa[1 - ((tv[ci] >> (2 * k)) & 1)], ma[1 - ((tv[ci] >> (2 * k + 1)) & 1)]]
+            if list(ca) != want:
+                ctx.disagree("lik_child_entry_is_parent_entry", case,
+                             {"where": label, "pos": pos, "child": c, "entry": list(ca), "father": list(fa), "mother": list(ma), "t": tv[ci]}, want)
+            if all(x in (0, 1) for x in list(ca) + list(fa) + list(ma)):
+                n_def += 1
+                if not feasible_child(list(fa), list(ma), list(ca)):
+                    ctx.disagree("lik_output_genotypes_mendelian", case, {"where": label, "pos": pos, "child": list(ca), "father": list(fa), "mother": list(ma)},
+                                 "no Mendelian conflict among definite super-read genotypes")
+            else:
+                n_tie += 1
+    return n_def, n_tie
+
+
+def do_dplik(ctx, batch, case):
+    impl = run_dp_impl(case)
+    ctx.evaluated()
+    order, trios, positions = case["order"], case["trios"], case["positions"]
+    ncols = len(positions)
+    ctx.dist("lik_members", len(order)); ctx.dist("lik_cols", ncols); ctx.dist("lik_reads", len(case["reads"]))
+    if "err" in impl:
+        # with likelihoods every allele assignment is a candidate: the solver must not raise
+        ctx.disagree("c05.lik_columns(no exception)", case, impl, "get_alleles defined for every column (getAllelesLik_isSome)")
+        return
+    n_def, n_tie = lik_oracle(ctx, case, order, trios, positions, impl["superreads"], impl["tv"], "PedigreeDPTable(distrust)")
+    ctx.dist("lik_trio_columns_with_tie", min(n_tie, 5))
+    changed = sum(1 for s in order for ci in range(ncols)
+                  if all(a in (0, 1) for a in impl["superreads"][order.index(s)][ci][1:])
+                  and sorted(impl["superreads"][order.index(s)][ci][1:], reverse=True) != list(case["gts"][s][ci]))
+    ctx.dist("lik_changed_genotypes", min(changed, 5))
+    if trios and (changed or n_tie):
+        ctx.nontrivial(json.dumps(case, sort_keys=True))
+    req = column_requests(order, trios, positions, case["gts"], case["reads"], impl["partitioning"], impl["tv"], gls_by_name=case["gls"])
+
+    def cb(req, ans):
+        want = [[[a, b] for _, a, b in [sr[ci] for sr in impl["superreads"]]] for ci in range(ncols)]
+        got = [a["alleles"] if isinstance(a, dict) else a for a in ans]
+        if got != want:
+            ctx.disagree("c05.lik_columns", case, want, got)
+            return
+        costs = [a["cost"] for a in ans]
+        if any(x is None for x in costs) or sum(costs) + transition_cost(case["recomb"], impl["tv"]) != impl["cost"]:
+            ctx.disagree("c05.lik_columns(optimal cost = column costs + recombination costs)", case, impl["cost"],
+                         {"columns": costs, "recombination": transition_cost(case["recomb"], impl["tv"])})
+    batch.add(req, cb)
+    batch.add({"op": "c05.transition_cost", "recomb": case["recomb"], "tv": impl["tv"]},
+              lambda req, ans: ans == transition_cost(case["recomb"], impl["tv"]) or
+              ctx.disagree("c05.transition_cost", case, transition_cost(case["recomb"], impl["tv"]), ans))
 
 
 # ------------------------------------------------------------------------------------------------
@@ -685,6 +807,8 @@ def run_case(ctx, batch, case):
         do_table(ctx, batch, case)
     elif k == "dp":
         do_dp(ctx, batch, case)
+    elif k == "dplik":
+        do_dplik(ctx, batch, case)
     elif k == "cli":
         run_cli(ctx, batch, case)
     elif k == "conflict":
@@ -706,6 +830,8 @@ def run(ctx):
         do_table(ctx, batch, gen_table_case(rng))
     for _ in range((2500 if ctx.quick else 30000) * ctx.scale):
         do_dp(ctx, batch, gen_dp_case(rng))
+    for _ in range((1500 if ctx.quick else 20000) * ctx.scale):
+        do_dplik(ctx, batch, gen_dplik_case(rng))
     batch.flush()
     G.assert_overlay_in_use(ctx.overlay)
     modes = ["trio-noreads", "trio-sparse", "trio-deep", "trio-deep", "quartet-noreads", "quartet-sparse", "quartet-deep",
